@@ -29,7 +29,8 @@ type FileSpec struct {
 type PackageSpec struct {
 	Files     []*FileSpec `json:"files"`
 	AutoInstr bool        `json:"autoinstr,omitempty"`
-	Twin      bool        `json:"twin,omitempty"` // also write package pm (same sources) for the modifier-mode differential
+	Twin      bool        `json:"twin,omitempty"`   // also write package pm (same sources) for the modifier-mode differential
+	SrcMap    bool        `json:"srcmap,omitempty"` // E-BIN: package p is processed with -genmode=source-map (same behaviour is what C20 promises)
 }
 
 // Specs returns all directives of the package.
@@ -267,6 +268,15 @@ func (pr *progRender) fnExpr(sp string, unit int, sigStr string, body []string, 
 		return "ext.Task_" + name
 	}
 	return lit(false)
+}
+
+// mapCollExpr renders the collection argument of a cff.Map.
+func mapCollExpr(mk string, mp *rt.MapSpec) string {
+	e := fmt.Sprintf("%s%s(env.Coll(%d))", mk, mp.Elem.Suffix(), mp.Coll)
+	if mp.Named {
+		e = fmt.Sprintf("N%s%s(%s)", mk, mp.Elem.Suffix(), e) // conversion to the declared map type
+	}
+	return e
 }
 
 func (pr *progRender) usesHolder() bool {
@@ -513,13 +523,20 @@ func (pr *progRender) render() string {
 			mp := &s.Maps[i]
 			opts = append(opts, func() string {
 				_, tg := pHelpers(mp.Elem)
-				ins := []string{"k string", "v " + pr.typ(mp.Elem)}
-				body := fmt.Sprintf("env.Elem(%d, %s, -1, k, %s(v))", mp.Unit, ctxArg(mp.Ctx), tg)
+				ktyp, kexpr, mk := "string", "k", "mkM_"
+				switch mp.KeyK {
+				case "int":
+					ktyp, kexpr, mk = "int", "rt.MapKey(k)", "mkMI_"
+				case "struct":
+					ktyp, kexpr, mk = "MK", "rt.MapKey(k.A)", "mkMS_"
+				}
+				ins := []string{"k " + ktyp, "v " + pr.typ(mp.Elem)}
+				body := fmt.Sprintf("env.Elem(%d, %s, -1, %s, %s(v))", mp.Unit, ctxArg(mp.Ctx), kexpr, tg)
 				if mp.Err {
 					body = "return " + body
 				}
 				fe := pr.fnExpr(mp.Sp, mp.Unit, sig(n, mp.Ctx, ins, nil, mp.Err), []string{body}, "", nil)
-				parts := []string{pr.wrapz(fe, "nil"), pr.wrapz(fmt.Sprintf("mkM_%s(env.Coll(%d))", mp.Elem.Suffix(), mp.Coll), "nil")}
+				parts := []string{pr.wrapz(fe, "nil"), pr.wrapz(mapCollExpr(mk, mp), "nil")}
 				if mp.End != nil {
 					parts = append(parts, n.cff+".MapEnd("+pr.wrap(endExpr(mp.End))+")")
 				}
@@ -907,10 +924,16 @@ func SupportSource() string {
 	x.f("func tag_int(v int) uint64 { return uint64(v) }")
 	x.f("func mk_string(t uint64) string {\n\tif t == 0 {\n\t\treturn \"\"\n\t}\n\treturn strconv.FormatUint(t, 10)\n}")
 	x.f("func tag_string(v string) uint64 {\n\tif v == \"\" {\n\t\treturn 0\n\t}\n\tn, _ := strconv.ParseUint(v, 10, 64)\n\treturn n\n}")
+	x.f("// MK is a comparable struct used as a map key.\ntype MK struct {\n\tA int\n\tB string\n}")
 	for _, e := range collElemTypes {
 		sfx, typ := e.Suffix(), e.Go()
 		x.f("func mkL_%[1]s(tags []uint64) []%[2]s {\n\tif tags == nil {\n\t\treturn nil\n\t}\n\tout := make([]%[2]s, len(tags))\n\tfor i, t := range tags {\n\t\tout[i] = mk_%[1]s(t)\n\t}\n\treturn out\n}", sfx, typ)
 		x.f("func mkM_%[1]s(tags []uint64) map[string]%[2]s {\n\tif tags == nil {\n\t\treturn nil\n\t}\n\tout := make(map[string]%[2]s, len(tags))\n\tfor i, t := range tags {\n\t\tout[rt.MapKey(i)] = mk_%[1]s(t)\n\t}\n\treturn out\n}", sfx, typ)
+		x.f("func mkMI_%[1]s(tags []uint64) map[int]%[2]s {\n\tif tags == nil {\n\t\treturn nil\n\t}\n\tout := make(map[int]%[2]s, len(tags))\n\tfor i, t := range tags {\n\t\tout[i] = mk_%[1]s(t)\n\t}\n\treturn out\n}", sfx, typ)
+		x.f("func mkMS_%[1]s(tags []uint64) map[MK]%[2]s {\n\tif tags == nil {\n\t\treturn nil\n\t}\n\tout := make(map[MK]%[2]s, len(tags))\n\tfor i, t := range tags {\n\t\tout[MK{A: i, B: \"b\"}] = mk_%[1]s(t)\n\t}\n\treturn out\n}", sfx, typ)
+		x.f("type NmkM_%[1]s map[string]%[2]s", sfx, typ)
+		x.f("type NmkMI_%[1]s map[int]%[2]s", sfx, typ)
+		x.f("type NmkMS_%[1]s map[MK]%[2]s", sfx, typ)
 		if e.K == "T" {
 			x.f("type NL_%[1]s []%[2]s", sfx, typ)
 			x.f("func mkNL_%[1]s(tags []uint64) NL_%[1]s { return NL_%[1]s(mkL_%[1]s(tags)) }", sfx)
